@@ -594,6 +594,54 @@ pub fn run_writer(sid: &str, tag: &Value, pre: &[u8], ps: &[Payload], out: &mut 
     n
 }
 
+/// Values of 4 GiB and more (allocated zeroed, never touched unless the crate copies them): a byte
+/// slice, a TLV and a (type, bytes) pair whose length does not fit into 32 bits, written into a
+/// small prefilled writer and turned into bytes directly. The specification is told about the
+/// first GiB of the value ("more than 65535 bytes" is all that matters); what comes back is
+/// logged up to its first 70000 bytes.
+pub fn run_writer_huge(sid: &str, tag: &Value, which: usize, len: usize, out: &mut dyn Write) -> usize {
+    let pre = vec![0xAAu8, 0xBB, 0xCC];
+    writeln!(out, "{}", json!({"fam": "writer", "sid": sid, "op": "WFrom", "tag": tag, "pre": rl(&pre)})).unwrap();
+    let big = vec![0u8; len];
+    let shown = json!([[0, 1u64 << 30]]);
+    let p = match which % 3 {
+        0 => json!({"ty": "slice", "v": shown, "real_len_gib": len >> 30}),
+        1 => json!({"ty": "tlv", "t": {"ty": "raw", "code": 4}, "v": shown, "real_len_gib": len >> 30}),
+        _ => json!({"ty": "pair", "t": {"ty": "named", "name": "NoOp"}, "v": shown, "real_len_gib": len >> 30}),
+    };
+    let cap = |b: &[u8]| rl(&b[..b.len().min(70000)]);
+    crate::util::set_extra_budget_ms(120_000);
+    let tb = guard(|| {
+        let r = match which % 3 {
+            0 => big.as_slice().to_bytes(),
+            1 => TypeLengthValue::new(4u8, big.as_slice()).to_bytes(),
+            _ => (Type::NoOp, big.as_slice()).to_bytes(),
+        };
+        match r {
+            Ok(b) => json!({"k": "ok", "v": cap(&b)}),
+            Err(e) => json!({"k": "err", "ek": ek(&e)}),
+        }
+    })
+    .unwrap_or_else(|m| panic_value(&m));
+    let r = guard(|| {
+        let mut w = Writer::from(pre.clone());
+        let r = match which % 3 {
+            0 => big.as_slice().write_to(&mut w),
+            1 => TypeLengthValue::new(4u8, big.as_slice()).write_to(&mut w),
+            _ => (Type::NoOp, big.as_slice()).write_to(&mut w),
+        };
+        (r, w.finish())
+    });
+    crate::util::set_extra_budget_ms(0);
+    let ev = match r {
+        Ok((Ok(count), fin)) => json!({"sid": sid, "op": "WWrite", "p": p, "r": {"k": "ok", "n": count.min(i32::MAX as usize)}, "fin": cap(&fin), "tb": tb}),
+        Ok((Err(e), fin)) => json!({"sid": sid, "op": "WWrite", "p": p, "r": {"k": "err", "ek": ek(&e)}, "fin": cap(&fin), "tb": tb}),
+        Err(m) => json!({"sid": sid, "op": "WWrite", "p": p, "r": panic_value(&m), "fin": rl(&pre), "tb": tb}),
+    };
+    writeln!(out, "{}", ev).unwrap();
+    2
+}
+
 /// One writer created with `Writer::default()` and kept across all writes (never re-wrapped).
 pub fn run_writer_persistent(sid: &str, tag: &Value, ps: &[Payload], out: &mut dyn Write) -> usize {
     let mut n = 0;
@@ -671,6 +719,20 @@ pub fn random_addr(rng: &mut Rng, fam: u64) -> v2::Addresses {
             let s: [u8; 16] = b[..16].try_into().unwrap();
             let d: [u8; 16] = b[16..32].try_into().unwrap();
             v2::Addresses::IPv6(v2::IPv6::new(s, d, u16::from_be_bytes([b[32], b[33]]), u16::from_be_bytes([b[34], b[35]])))
+        }
+        _ if rng.chance(1, 3) => {
+            // the two paths drawn independently: unnamed (all zero), full, a short name
+            let mut path = |rng: &mut Rng| -> [u8; 108] {
+                let mut p = [0u8; 108];
+                match rng.below(3) {
+                    0 => {}
+                    1 => { for b in p.iter_mut() { *b = 0x61 + rng.below(20) as u8; } }
+                    _ => { let name = b"/var/run/app.sock"; p[..name.len()].copy_from_slice(name); }
+                }
+                p
+            };
+            let (s, d) = (path(rng), path(rng));
+            v2::Addresses::Unix(v2::Unix::new(s, d))
         }
         _ => {
             let mut s = [0u8; 108];
@@ -1042,7 +1104,7 @@ pub fn generate_builder(name: &str, count: usize, rng: &mut Rng, out: &mut dyn W
         // C13: parse a header, then rebuild it from the observed parts
         "rebuild" => {
             for i in 0..count {
-                let mut input = crate::stream::random_v2_good(rng);
+                let mut input = if i % 3 == 1 { crate::stream::halves_header(i / 3, rng) } else { crate::stream::random_v2_good(rng) };
                 if i % 20 == 0 {
                     // large payloads
                     let fam = rng.below(4) as u8;
@@ -1228,6 +1290,12 @@ pub fn generate_writer(name: &str, count: usize, rng: &mut Rng, out: &mut dyn Wr
                 let pre = vec![0x11u8; pre_len];
                 let ps = vec![random_payload(rng, false), random_payload(rng, false)];
                 n += run_writer(&format!("wlimit-{}", i), &json!({"g": "wlimit"}), &pre, &ps, out);
+            }
+        }
+        "whuge" => {
+            let lens = [(4usize << 30) + 5, 4usize << 30, (8usize << 30) + 65535, (4usize << 30) + 65536];
+            for i in 0..count {
+                n += run_writer_huge(&format!("whuge-{}", i), &json!({"g": "whuge"}), i, lens[(i / 3) % lens.len()], out);
             }
         }
         "wraw" => {
